@@ -474,6 +474,17 @@ func genBytes(t *rapid.T, small bool) []byte {
 		return rapid.SliceOfN(rapid.Byte(), 9, 20).Draw(t, "bytes")
 	}
 	n := rapid.SampledFrom([]int{127, 128, 129, 256, 300, 4660}).Draw(t, "biglen")
+	// a small share above 64 KiB (the readers take such lengths incrementally):
+	// 65537, 70000 and 131073 bytes. Mid-range values of the draw: rapid favours
+	// the bounds of a range.
+	switch rapid.IntRange(0, 29).Draw(t, "huge") {
+	case 7:
+		n = 65537
+	case 13:
+		n = 70000
+	case 19:
+		n = 131073
+	}
 	b := make([]byte, n)
 	seed := rapid.Byte().Draw(t, "fill")
 	for i := range b {
@@ -1087,4 +1098,27 @@ func GenDirtyScalar(t *rapid.T) thriftspec.Value {
 		b[i] = byte('a' + i%23)
 	}
 	return thriftspec.Value{T: thriftspec.String, S: b}
+}
+
+// HugeString reports whether v holds a string / binary longer than 64 KiB.
+func HugeString(v thriftspec.Value) bool {
+	if v.T == thriftspec.String && len(v.S) > 65536 {
+		return true
+	}
+	for _, x := range v.Elems {
+		if HugeString(x) {
+			return true
+		}
+	}
+	for _, x := range v.Keys {
+		if HugeString(x) {
+			return true
+		}
+	}
+	for _, f := range v.Fields {
+		if HugeString(f.V) {
+			return true
+		}
+	}
+	return false
 }
